@@ -406,4 +406,10 @@ no prefix, no exclusions -/
 def flightKey (sig : Sig) (t : Tmpl) (ctx : Ctx) (c : Call) : Option Str :=
   cacheKey sig t ctx c
 
+/-- the key context in which the body of a function decorated with a cashews decorator runs — and with it every
+call the body makes: the caller's.  No decorator opens a key context around the decorated function;
+`invalidate` enters its `template_context(**_args, rewrite=True)` (the values of the invalidating call, winning over
+a call's own) only around `backend.delete_match(key)`, after `result = await func(*args, **kwargs)` -/
+def bodyCtx (ambient : Ctx) (_ownValues : Dict) : Ctx := ambient
+
 end CashewsVerif.KeyModel
